@@ -119,6 +119,165 @@ Proof.
   destruct (zlen _ <? 2); [reflexivity|]. destruct (unquote _); reflexivity.
 Qed.
 
+(* ------------------------------------------------------------------ *)
+(* lists                                                               *)
+(* ------------------------------------------------------------------ *)
+Lemma firstn_app_le : forall (n : nat) (a b : bytes), (n <= length a)%nat -> firstn n (a ++ b) = firstn n a.
+Proof.
+  intros n a b H. rewrite firstn_app. replace (n - length a)%nat with 0%nat by lia.
+  cbn [firstn]. apply app_nil_r.
+Qed.
+Lemma skipn_app_le : forall (n : nat) (a b : bytes), (n <= length a)%nat -> skipn n (a ++ b) = skipn n a ++ b.
+Proof.
+  intros n a b H. rewrite skipn_app. replace (n - length a)%nat with 0%nat by lia. reflexivity.
+Qed.
+Lemma skipn_app_ge : forall (n : nat) (a b : bytes), skipn (length a + n) (a ++ b) = skipn n b.
+Proof.
+  intros n a b. rewrite skipn_app. rewrite skipn_all2 by lia.
+  replace (length a + n - length a)%nat with n by lia. reflexivity.
+Qed.
+Lemma skipn_skipn' : forall (x y : nat) (l : bytes), skipn x (skipn y l) = skipn (y + x) l.
+Proof.
+  intros x y. induction y as [|y IH]; intros l; [reflexivity|].
+  destruct l as [|c l]; [destruct x; reflexivity|]. cbn [skipn plus]. apply IH.
+Qed.
+Lemma zlen_app : forall (a b : bytes), zlen (a ++ b) = zlen a + zlen b.
+Proof. intros; unfold zlen; rewrite app_length; lia. Qed.
+Lemma app_nonnil : forall (a b : bytes), a <> [] -> a ++ b <> [].
+Proof. intros [|x a] b H; [congruence|discriminate]. Qed.
+
+Lemma app_nonnil_r : forall (a b : bytes), b <> [] -> a ++ b <> [].
+Proof. intros a [|x b] H; [congruence|]. destruct a; discriminate. Qed.
+Lemma zlen_eqb0 : forall (b : bytes), b <> [] -> (zlen b =? 0) = false.
+Proof. intros [|c r] H; [congruence|]. unfold zlen. cbn [length]. lia. Qed.
+
+Lemma trim_left_app_nil : forall a b, trim_left a = [] -> trim_left (a ++ b) = trim_left b.
+Proof.
+  induction a as [|c a IH]; intros b H; [reflexivity|].
+  cbn [trim_left app] in *. destruct (is_space c); [auto|discriminate].
+Qed.
+Lemma trim_left_app_cons : forall a b c r, trim_left a = c :: r -> trim_left (a ++ b) = c :: r ++ b.
+Proof.
+  induction a as [|x a IH]; intros b c r H; [discriminate|].
+  cbn [trim_left app] in *. destruct (is_space x); [auto|].
+  inversion H; subst. reflexivity.
+Qed.
+
+Lemma has_prefix_nil : forall b, has_prefix b [] = true.
+Proof. intros b. destruct b; reflexivity. Qed.
+
+Lemma has_prefix_app : forall a b s,
+  has_prefix (a ++ b) s = has_prefix a (firstn (length a) s) && has_prefix b (skipn (length a) s).
+Proof.
+  induction a as [|x a IH]; intros b s.
+  - cbn [app length firstn skipn]. rewrite has_prefix_nil. reflexivity.
+  - destruct s as [|y s].
+    + cbn [length firstn skipn]. rewrite !has_prefix_nil. reflexivity.
+    + cbn [app length firstn skipn has_prefix]. rewrite IH, andb_assoc. reflexivity.
+Qed.
+
+Lemma scan_quote_app : forall a b e i,
+  scan_quote (a ++ b) e i =
+  match scan_quote a e i with
+  | (Some j, e') => (Some j, e')
+  | (None, e') => scan_quote b e' (i + length a)
+  end.
+Proof.
+  induction a as [|c a IH]; intros b e i.
+  - cbn [app scan_quote length]. rewrite Nat.add_0_r. reflexivity.
+  - cbn [app scan_quote length].
+    replace (i + S (length a))%nat with (S i + length a)%nat by lia.
+    destruct e; [apply IH|]. destruct (c =? 34); [reflexivity|]. destruct (c =? 92); apply IH.
+Qed.
+
+Lemma scan_quote_shift : forall b e i k,
+  scan_quote b e (i + k) =
+  let '(f, e') := scan_quote b e i in (option_map (fun j => (j + k)%nat) f, e').
+Proof.
+  induction b as [|c b IH]; intros e i k; [reflexivity|].
+  cbn [scan_quote]. change (S (i + k)) with (S i + k)%nat.
+  destruct e; [apply IH|]. destruct (c =? 34); [reflexivity|]. destruct (c =? 92); apply IH.
+Qed.
+
+Lemma scan_quote_lt : forall a e i j e', scan_quote a e i = (Some j, e') -> (i <= j < i + length a)%nat.
+Proof.
+  induction a as [|c a IH]; intros e i j e'; cbn [scan_quote length]; [discriminate|].
+  destruct e; [intros H; apply IH in H; lia|].
+  destruct (c =? 34); [intros [= <- _]; lia|].
+  destruct (c =? 92); intros H; apply IH in H; lia.
+Qed.
+
+Lemma scan_number_app : forall a b d i,
+  scan_number (a ++ b) d i =
+  match scan_number a d i with
+  | (Some j, d') => (Some j, d')
+  | (None, d') => scan_number b d' (i + length a)
+  end.
+Proof.
+  induction a as [|c a IH]; intros b d i.
+  - cbn [app scan_number length]. rewrite Nat.add_0_r. reflexivity.
+  - cbn [app scan_number length].
+    replace (i + S (length a))%nat with (S i + length a)%nat by lia.
+    destruct (is_stop c); [reflexivity|apply IH].
+Qed.
+
+Lemma scan_number_shift : forall b d i k,
+  scan_number b d (i + k) =
+  let '(f, d') := scan_number b d i in (option_map (fun j => (j + k)%nat) f, d').
+Proof.
+  induction b as [|c b IH]; intros d i k; [reflexivity|].
+  cbn [scan_number]. change (S (i + k)) with (S i + k)%nat.
+  destruct (is_stop c); [reflexivity|apply IH].
+Qed.
+
+Lemma scan_number_lt : forall a d i j d', scan_number a d i = (Some j, d') -> (i <= j < i + length a)%nat.
+Proof.
+  induction a as [|c a IH]; intros d i j d'; cbn [scan_number length]; [discriminate|].
+  destruct (is_stop c); [intros [= <- _]; lia|intros H; apply IH in H; lia].
+Qed.
+
+(* ------------------------------------------------------------------ *)
+(* doString on a ++ b                                                  *)
+(* ------------------------------------------------------------------ *)
+Lemma do_string_app : forall p a b, a <> [] ->
+  match do_string p a with
+  | DSMore p1 => do_string p (a ++ b) = do_string p1 b
+  | DSDone p1 c rest => do_string p (a ++ b) = DSDone p1 c (rest ++ b)
+  | DSErr p1 => do_string p (a ++ b) = DSErr p1
+  | DSCrash _ => True
+  end.
+Proof.
+  intros p a b Ha. unfold do_string. cbv zeta.
+  destruct (zlen (jp_lit p) =? 0) eqn:Eat.
+  - destruct a as [|c0 a']; [congruence|]. cbn [app].
+    rewrite scan_quote_app.
+    destruct (scan_quote a' (jp_inesc p) 0) as [[j|] e1] eqn:Es.
+    + apply scan_quote_lt in Es. js.
+      change (c0 :: a' ++ b) with ((c0 :: a') ++ b).
+      rewrite (firstn_app_le (j + 2)), (skipn_app_le (j + 2)) by (cbn [length]; lia).
+      destruct (zlen _ <? 2); [exact I|]. destruct (unquote _); reflexivity.
+    + js.
+      rewrite (zlen_eqb0 (jp_lit p ++ c0 :: a')) by (apply app_nonnil_r; discriminate).
+      rewrite (scan_quote_shift b e1 0 (length a')).
+      destruct (scan_quote b e1 0) as [[j|] e2]; cbn [option_map]; js.
+      * replace (j + length a' + 2)%nat with (length (c0 :: a') + (j + 1))%nat by (cbn [length]; lia).
+        change (c0 :: a' ++ b) with ((c0 :: a') ++ b).
+        rewrite firstn_app_2, skipn_app_ge. rewrite <- app_assoc. reflexivity.
+      * change (c0 :: a' ++ b) with ((c0 :: a') ++ b). rewrite <- app_assoc. reflexivity.
+  - rewrite scan_quote_app.
+    destruct (scan_quote a (jp_inesc p) 0) as [[j|] e1] eqn:Es.
+    + apply scan_quote_lt in Es. js.
+      rewrite (firstn_app_le (j + 1)), (skipn_app_le (j + 1)) by lia.
+      destruct (zlen _ <? 2); [exact I|]. destruct (unquote _); reflexivity.
+    + js.
+      rewrite (zlen_eqb0 (jp_lit p ++ a)) by (apply app_nonnil_r; exact Ha).
+      rewrite (scan_quote_shift b e1 0 (length a)).
+      destruct (scan_quote b e1 0) as [[j|] e2]; cbn [option_map]; js.
+      * replace (j + length a + 1)%nat with (length a + (j + 1))%nat by lia.
+        rewrite firstn_app_2, skipn_app_ge. rewrite <- app_assoc. reflexivity.
+      * rewrite <- app_assoc. reflexivity.
+Qed.
+
 Section JsonChunks.
 Variable pf : bytes -> option Z.
 
@@ -454,8 +613,6 @@ Definition after_fu (p1 : jparser) (s1 : sink) (rest : bytes) (e : Z) (r : fres)
   (e = jpnil /\ rest = [] /\ r = (p1, s1, jpnil)) \/
   (e = jpnil /\ rest <> [] /\ R p1 s1 rest r).
 
-Lemma zlen_eqb0 : forall (b : bytes), b <> [] -> (zlen b =? 0) = false.
-Proof. intros [|c r] H; [congruence|]. unfold zlen. cbn [length]. lia. Qed.
 
 Lemma jfeed_until_sound : forall n p s b orig p1 s1 rest d e,
   inv p -> b <> [] ->
@@ -510,6 +667,144 @@ Proof.
     + apply jisnil_false in Ee. inversion H; subst. left; auto.
   - inversion H; subst. left. split; [|reflexivity].
     destruct b; [reflexivity|]. unfold zlen in Eb. cbn [length] in Eb. lia.
+Qed.
+
+
+(* ------------------------------------------------------------------ *)
+(* one step on a ++ b versus the same step on a                        *)
+(* ------------------------------------------------------------------ *)
+Lemma step_number_app_found : forall p s a b i d,
+  scan_number a (jp_isdbl p) 0 = (Some i, d) ->
+  step_number pf p s (a ++ b) =
+  match step_number pf p s a with JS p1 s1 rest dd e => JS p1 s1 (rest ++ b) dd e | JCrash w => JCrash w end.
+Proof.
+  intros p s a b i d H. unfold step_number. rewrite scan_number_app, H.
+  apply scan_number_lt in H. js.
+  rewrite (firstn_app_le i), (skipn_app_le i) by lia.
+  destruct (report_number pf s _ d) as [[s1 e]|]; reflexivity.
+Qed.
+
+Lemma step_number_app_more : forall p s a b d,
+  scan_number a (jp_isdbl p) 0 = (None, d) ->
+  step_number pf p s a = JS (jset_lit (jset_isdbl p d) (jp_lit p ++ a)) s [] false jpnil /\
+  step_number pf p s (a ++ b) = step_number pf (jset_lit (jset_isdbl p d) (jp_lit p ++ a)) s b.
+Proof.
+  intros p s a b d H. unfold step_number. rewrite scan_number_app, H. js.
+  split; [reflexivity|].
+  rewrite (scan_number_shift b d 0 (length a)).
+  destruct (scan_number b d 0) as [[j|] d2]; cbn [option_map]; js.
+  - replace (j + length a)%nat with (length a + j)%nat by lia.
+    rewrite firstn_app_2, skipn_app_ge, <- app_assoc. reflexivity.
+  - rewrite <- app_assoc. reflexivity.
+Qed.
+
+(* the step on the longer input does the same and leaves b unread; after an
+   error only the visitor and the error matter.  The "reported" flag is ignored. *)
+Definition ext (b : bytes) (r r' : jsres) : Prop :=
+  match r with
+  | JCrash _ => True
+  | JS p1 s1 rest d e =>
+      match r' with
+      | JCrash _ => False
+      | JS p2 s2 rest' d' e' =>
+          s1 = s2 /\ e = e' /\ (e = jpnil -> peq p1 p2 /\ rest' = rest ++ b)
+      end
+  end.
+
+Lemma ext_same : forall b p s rest d d' e, ext b (JS p s rest d e) (JS p s (rest ++ b) d' e).
+Proof. intros; cbn [ext]; auto using peq_refl. Qed.
+Lemma ext_err : forall b p s rest d e p' rest' d',
+  e <> jpnil -> ext b (JS p s rest d e) (JS p' s rest' d' e).
+Proof. intros; cbn [ext]; repeat split; auto; congruence. Qed.
+Lemma ext_refl : forall r, ext [] r r.
+Proof. intros [p s rest d e|w]; cbn [ext]; auto. rewrite app_nil_r. auto using peq_refl. Qed.
+Lemma ext_app : forall b r,
+  ext b r (match r with JS p1 s1 rest d e => JS p1 s1 (rest ++ b) d e | JCrash w => JCrash w end).
+Proof. intros b [p s rest d e|w]; [apply ext_same|exact I]. Qed.
+
+Definition Dich (b : bytes) (r whole : jsres) : Prop :=
+  match r with
+  | JCrash _ => True
+  | JS p1 s1 rest d e =>
+      ext b r whole \/ (rest = [] /\ e = jpnil /\ ext [] (jstep pf p1 s1 b) whole)
+  end.
+Lemma Dich_ext : forall b r w, ext b r w -> Dich b r w.
+Proof. intros b [] w H; [left; exact H|exact I]. Qed.
+
+(* ---- null / true / false ---- *)
+Lemma step_kind_spec : forall p s b kind ev,
+  0 <= jp_req p <= zlen kind ->
+  step_kind p s b kind ev =
+  let n := jp_req p in
+  let suffix := skipn (length kind - Z.to_nat n) kind in
+  if zlen b <? n then
+    if has_prefix b (firstn (length b) suffix) then JS (jset_req p (n - zlen b)) s [] false jpnil
+    else JS (jset_req p (n - zlen b)) s b false jeGeneric
+  else if has_prefix b suffix then let '(s2, e) := jvis s ev in JS (jpop p) s2 (skipn (Z.to_nat n) b) true e
+       else JS p s b false jeGeneric.
+Proof.
+  intros p s b kind ev Hn. unfold step_kind. cbv zeta.
+  destruct ((jp_req p <? 0) || (zlen kind <? jp_req p)) eqn:E; [lia|]. clear E.
+  destruct (zlen b <? jp_req p) eqn:EL; cbn [negb].
+  - replace (Z.to_nat (zlen b)) with (length b) by (unfold zlen; lia).
+    destruct (has_prefix _ _); cbn [negb]; [|reflexivity].
+    rewrite skipn_all. reflexivity.
+  - rewrite (firstn_all2 (n := Z.to_nat (jp_req p))).
+    + destruct (has_prefix _ _); reflexivity.
+    + rewrite skipn_length. unfold zlen in *. lia.
+Qed.
+
+
+Lemma generic_not_nil : jeGeneric <> jpnil.
+Proof. ust. lia. Qed.
+
+Lemma step_kind_dich0 : forall p s a b kind ev,
+  0 <= jp_req p <= zlen kind -> Forall ret_state (jp_states p) ->
+  match step_kind p s a kind ev with
+  | JCrash _ => True
+  | JS p1 s1 rest d e =>
+      ext b (JS p1 s1 rest d e) (step_kind p s (a ++ b) kind ev) \/
+      (rest = [] /\ e = jpnil /\ jp_cur p1 = jp_cur p /\
+       ext [] (step_kind p1 s1 b kind ev) (step_kind p s (a ++ b) kind ev))
+  end.
+Proof.
+  intros p s a b kind ev Hn HF.
+  rewrite (step_kind_spec p s a), (step_kind_spec p s (a ++ b)) by assumption. cbv zeta.
+  set (n := jp_req p) in *. set (suffix := skipn (length kind - Z.to_nat n) kind).
+  assert (Hsl : length suffix = Z.to_nat n).
+  { unfold suffix. rewrite skipn_length. unfold zlen in Hn. lia. }
+  rewrite zlen_app.
+  destruct (zlen a <? n) eqn:Ea.
+  - rewrite !has_prefix_app, firstn_firstn, skipn_firstn_comm, app_length.
+    replace (Nat.min (length a) (length a + length b)) with (length a) by lia.
+    replace (length a + length b - length a)%nat with (length b) by lia.
+    destruct (has_prefix a (firstn (length a) suffix)) eqn:Ha; cbn [andb].
+    + right. split; [reflexivity|]. split; [reflexivity|]. split; [reflexivity|].
+      rewrite (step_kind_spec (jset_req p (n - zlen a)) s b) by (js; unfold zlen in *; lia). js. cbv zeta.
+      assert (Hsuf : skipn (length kind - Z.to_nat (n - zlen a)) kind = skipn (length a) suffix).
+      { unfold suffix. rewrite skipn_skipn'. f_equal. unfold zlen in *. lia. }
+      rewrite Hsuf.
+      replace (zlen a + zlen b <? n) with (zlen b <? n - zlen a) by lia.
+      destruct (zlen b <? n - zlen a) eqn:Eb.
+      * replace (n - (zlen a + zlen b)) with (n - zlen a - zlen b) by lia.
+        destruct (has_prefix b _); [apply ext_refl|apply ext_err, generic_not_nil].
+      * destruct (has_prefix b _); [|apply ext_err, generic_not_nil].
+        destruct (jvis s ev) as [s2 e]. cbn [ext]. split; [reflexivity|]. split; [reflexivity|].
+        intros _. split.
+        -- apply peq_sym. apply (jpop_peq p (n - zlen a) HF).
+        -- rewrite app_nil_r.
+           replace (Z.to_nat n) with (length a + Z.to_nat (n - zlen a))%nat by (unfold zlen in *; lia).
+           apply skipn_app_ge.
+    + left. destruct (zlen a + zlen b <? n); apply ext_err, generic_not_nil.
+  - replace (zlen a + zlen b <? n) with false by (pose proof (Zle_0_nat (length b)); unfold zlen in *; lia).
+    rewrite has_prefix_app.
+    rewrite (firstn_all2 (n := length a)) by (unfold zlen in *; lia).
+    rewrite (skipn_all2 (n := length a)) by (unfold zlen in *; lia).
+    rewrite has_prefix_nil, andb_true_r.
+    destruct (has_prefix a suffix).
+    + destruct (jvis s ev) as [s2 e]. left.
+      rewrite skipn_app_le by (unfold zlen in *; lia). apply ext_same.
+    + left. apply ext_err, generic_not_nil.
 Qed.
 
 End JsonChunks.
